@@ -26,32 +26,34 @@ import (
 )
 
 type Proxy struct {
-	NoArgs  func() error
-	Hello   func(string) (string, error)
-	Add     func(int, int) (int, error)
-	Scalars func(int8, uint32, float64, string, []byte, bool, float32, int64, uint64) (string, int64, error)
-	Structs func(uni.Plain, *uni.Plain, []uni.Plain, map[string]uni.Plain) (uni.Plain, *uni.Plain, int, error)
-	Ptrs    func(*int, *string, **float64) (*int, *string, error)
-	Slices  func([]int, []string, [][]byte, []interface{}, []float64) ([]string, []int, error)
-	Maps    func(map[string]int, map[string]interface{}, map[int]string) (map[string]int, int, error)
-	Echo    func(interface{}) (interface{}, error)
-	Join    func(string, ...string) (string, error)
-	Sum     func(...int) (int, error)
-	Any     func(...interface{}) (int, error)
-	WithCtx func(int, string) (string, error)
-	Special func(time.Time, uuid.UUID, *big.Int, []time.Time) (time.Time, uuid.UUID, *big.Int, error)
-	Multi   func(int) (int, string, []int, error)
-	Repeat  func(string) (string, string, string, error)
-	Tree    func(uni.Tree) (uni.Tree, error)
-	Nothing func(string)
-	OnlyErr func(string) error
-	CtxAny  func(string, interface{}) (string, error)
-	CtxVar  func(int, ...interface{}) (int, error)
-	CtxMap  func(map[string]int, interface{}, *int) (int, error)
+	NoArgs   func() error
+	Hello    func(string) (string, error)
+	Add      func(int, int) (int, error)
+	Scalars  func(int8, uint32, float64, string, []byte, bool, float32, int64, uint64) (string, int64, error)
+	Structs  func(uni.Plain, *uni.Plain, []uni.Plain, map[string]uni.Plain) (uni.Plain, *uni.Plain, int, error)
+	Ptrs     func(*int, *string, **float64) (*int, *string, error)
+	Slices   func([]int, []string, [][]byte, []interface{}, []float64) ([]string, []int, error)
+	Maps     func(map[string]int, map[string]interface{}, map[int]string) (map[string]int, int, error)
+	Echo     func(interface{}) (interface{}, error)
+	Join     func(string, ...string) (string, error)
+	Sum      func(...int) (int, error)
+	Any      func(...interface{}) (int, error)
+	WithCtx  func(int, string) (string, error)
+	Special  func(time.Time, uuid.UUID, *big.Int, []time.Time) (time.Time, uuid.UUID, *big.Int, error)
+	Multi    func(int) (int, string, []int, error)
+	Repeat   func(string) (string, string, string, error)
+	Tree     func(uni.Tree) (uni.Tree, error)
+	Nothing  func(string)
+	OnlyErr  func(string) error
+	CtxAny   func(string, interface{}) (string, error)
+	CtxVar   func(int, ...interface{}) (int, error)
+	CtxMap   func(map[string]int, interface{}, *int) (int, error)
+	Div      func(int, int) (int, error)
+	Positive func(int) error
 }
 
 var proxyField = map[string]string{"noArgs": "NoArgs", "hello": "Hello", "add": "Add", "Scalars": "Scalars", "structs": "Structs", "ptrs": "Ptrs", "slices": "Slices", "maps": "Maps",
-	"echo": "Echo", "join": "Join", "sum": "Sum", "any": "Any", "withCtx": "WithCtx", "special": "Special", "multi": "Multi", "repeat": "Repeat", "tree": "Tree", "nothing": "Nothing", "onlyErr": "OnlyErr", "ctxAny": "CtxAny", "ctxVar": "CtxVar", "ctxMap": "CtxMap"}
+	"echo": "Echo", "join": "Join", "sum": "Sum", "any": "Any", "withCtx": "WithCtx", "special": "Special", "multi": "Multi", "repeat": "Repeat", "tree": "Tree", "nothing": "Nothing", "onlyErr": "OnlyErr", "ctxAny": "CtxAny", "ctxVar": "CtxVar", "ctxMap": "CtxMap", "div": "Div", "positive": "Positive"}
 
 var ctxType = reflect.TypeOf((*context.Context)(nil)).Elem()
 
